@@ -78,7 +78,8 @@ def run_history(lines, kinds):
 
 
 EXTRA_LINES = ["foo v -o 3", "foo --opt", "baz -h", "help", "help foo bar", "foo bar v", "foo bar", "-V", "baz w -vv", "baz --no-ansi w",
-               "help help", "foo v w", "baz -q x", "help -h", "foo -- a b", "baz a b c d", "nope nope"]
+               "help help", "foo v w", "baz -q x", "help -h", "foo -- a b", "baz a b c d", "nope nope", "-x", "help baz --bogus",
+               "help foo v --bogus", "--help --bogus", "baz --help --bogus"]
 
 
 def run(ctx):
@@ -101,7 +102,7 @@ def run(ctx):
     for tag, a in T.tuples(r, ("LINES",)):
         lines = json.loads(a[0])
     hists = T.emitted(r)
-    if not lines or len(hists) < 190:
+    if not lines or len(hists) < 280:
         raise T.MachineryError("RunHistory emitted %d sequences" % len(hists))
     traces, cases = [], []
     for h in hists:
